@@ -95,6 +95,23 @@ def gen_hazard_case(cid, rnd, reps=12):
     return {"id": cid, "base": base, "threads": threads, "tags": ["hazard"]}
 
 
+def gen_usage_hazard_case(cid, rnd, reps=8):
+    """files that take turns being the ONLY user of many names (no definitions involved): each
+    re-analysis empties the shared usage vectors of the reverse index while another thread records
+    its first usages of the same names (seed S69: check under a read lock, remove later)"""
+    root = "/vu%d" % (cid % 3)
+    nn = rnd.choice([20, 40])
+    users = "def test_u(%s):\n    pass\n" % ", ".join("u_%d" % j for j in range(nn))
+    none = "def test_u():\n    pass\n"
+    files = [root + "/test_u%d.py" % k for k in range(rnd.choice([2, 3]))]
+    threads = []
+    for k, p in enumerate(files):
+        ops = [{"op": "analyze", "path": p, "text": (users if (i + k) % 2 == 0 else none) + "\n" * (i % 3)} for i in range(reps)]
+        ops.append({"op": "analyze", "path": p, "text": users if k % 2 == 0 else none})
+        threads.append(ops)
+    return {"id": cid, "base": [{"op": "analyze", "path": files[0], "text": users}], "threads": threads, "tags": ["usage-hazard"]}
+
+
 def gen_fresh_names_case(cid, rnd, reps=8):
     """several files that all define the SAME names and all switch, round after round, between
     two disjoint sets of names: in every round the new set is absent from the per-name maps and
@@ -213,6 +230,7 @@ def run(r):
         cases = [gen_conc_case(i, rnd) for i in range(24 if quick else 300)]
         cases += [gen_hazard_case(1000 + i, rnd) for i in range(12 if quick else 100)]
         cases += [gen_fresh_names_case(2000 + i, rnd) for i in range(8 if quick else 60)]
+        cases += [gen_usage_hazard_case(3000 + i, rnd) for i in range(6 if quick else 40)]
         seeds = [r.seed * 100 + k for k in range(6 if quick else 30)]
         results = run_conc(h4, cases, seeds, tmp)
     finally:
